@@ -22,9 +22,11 @@ def solve1(eta, dr, L, hc, kT=1.0, pot=None, clo='py', rho=None, method='krylov'
     else:
         s = pyPRISM.System([T1], kT=kT)
     s.domain = pyPRISM.Domain(length=L, dr=dr)
-    s.density[T1] = rho if rho is not None else eta * 6 / math.pi / d ** 3
-    s.diameter[T1] = d
-    s.potential[T1, T1] = pot if pot is not None else pyPRISM.potential.HardSphere()
+    s.density[G.fresh(T1)] = rho if rho is not None else eta * 6 / math.pi / d ** 3
+    s.diameter[G.fresh(T1)] = d
+    K1 = G.fresh(T1)
+    s.potential[K1, K1] = pot if pot is not None else pyPRISM.potential.HardSphere()
+    if pot is not None: G.scramble(pot)          # the caller's object is re-used with other parameters; the System holds its own copy
     s.closure[T1, T1] = G.mk_clo([clo, hc])
     s.omega[T1, T1] = pyPRISM.omega.SingleSite()
     p = s.createPRISM()
